@@ -458,6 +458,232 @@ func c01Replay(r *Run) {
 	fmt.Printf("replayed %d operations of key %d: illegal=%v\n", len(w.Witness.History), w.Witness.Key, n > 0)
 }
 
+// c01ManyKeys: the property's clauses on a key population far larger than the few keys of the recorded histories
+// (thousands of keys, so that every shard holds dozens to hundreds and whatever is sized by the number of entries -
+// maps, doorkeeper filters - grows, ages and is replaced on the way): each key is offered until it is stored, read
+// back, overwritten, read back, deleted, and must then be absent from Get and Range until it is set again. One
+// client, so "the most recent Set" is simply the last one. Configurations: plain / loading x doorkeeper x entry pool;
+// MaxSize above the population, so nothing is evicted.
+func c01ManyKeys(r *Run, idx int) {
+	rng := r.Rng(int64(1700 + idx))
+	kind := []string{"plain", "loading"}[idx%2]
+	door, pool := idx/2%2 == 0, idx/4%2 == 1
+	n := 2000 + rng.Intn(4000)
+	a, err := newAnyCache(kind, anyOpts{MaxSize: int64(4 * n), Doorkeeper: door, Pool: pool,
+		Loader: func(ctx context.Context, k int) (theine.Loaded[int64], error) {
+			return theine.Loaded[int64]{Value: -int64(k) - 1, Cost: 1}, nil
+		}})
+	if err != nil {
+		r.Broken("build: %v", err)
+		return
+	}
+	defer a.closeAPI()
+	done := r.Case(fmt.Sprintf("many-keys %d kind=%s doorkeeper=%v pool=%v keys=%d", idx, kind, door, pool, n))
+	defer done()
+	cfg := map[string]any{"round": idx, "cache": kind, "doorkeeper": door, "entry_pool": pool, "keys": n}
+	fail := func(key, what string) {
+		r.Violate(key+"/many-keys", fmt.Sprintf("many-keys round %d (%s, doorkeeper %v, entry pool %v, %d keys): %s", idx, kind, door, pool, n, what), cfg)
+	}
+	base := 10_000_000 + idx*100_000
+	stored := map[int]int64{}
+	for i := 0; i < n; i++ {
+		k := base + i
+		for try := 0; try < 3; try++ {
+			if a.set(k, int64(k)*2, 1, 0) {
+				stored[k] = int64(k) * 2
+				break
+			}
+		}
+	}
+	a.wait()
+	if len(stored) < n*9/10 {
+		fail("set-refused", fmt.Sprintf("only %d of %d keys were stored within three offers each", len(stored), n))
+		return
+	}
+	readBack := func(phase string) bool {
+		for k, want := range stored {
+			v, ok, _ := a.get(context.Background(), k)
+			if kind == "loading" && ok && v == -int64(k)-1 {
+				ok = false // the loader answered: the key was not in the cache
+			}
+			if !ok || v != want {
+				fail("stale-or-missing-read/"+phase, fmt.Sprintf("key %d: Get returned (%d,%v), the most recent Set stored %d and nothing can have been evicted", k, v, ok, want))
+				return false
+			}
+		}
+		return true
+	}
+	if !readBack("after-set") {
+		return
+	}
+	for k := range stored {
+		if a.set(k, int64(k)*2+1, 1, 0) {
+			stored[k] = int64(k)*2 + 1
+		}
+	}
+	if !readBack("after-overwrite") {
+		return
+	}
+	// delete three quarters; the rest stays
+	deleted := map[int]bool{}
+	for k := range stored {
+		if k%4 != 0 {
+			_ = a.del(k)
+			deleted[k] = true
+		}
+	}
+	a.wait()
+	if kind == "plain" {
+		for k := range deleted {
+			if v, ok, _ := a.get(context.Background(), k); ok {
+				fail("stale-read/get-after-delete", fmt.Sprintf("key %d: Delete has returned, yet Get returns %d (%d of %d keys deleted)", k, v, len(deleted), len(stored)))
+				return
+			}
+		}
+	}
+	seenDeleted, seen := 0, 0
+	first := 0
+	a.rangeAll(func(k int, v int64) bool {
+		seen++
+		if deleted[k] {
+			if seenDeleted == 0 {
+				first = k
+			}
+			seenDeleted++
+		}
+		return true
+	})
+	if seenDeleted > 0 {
+		fail("stale-read/range-visit-after-delete", fmt.Sprintf("Range visited %d keys whose Delete had returned (first: %d)", seenDeleted, first))
+		return
+	}
+	if want := len(stored) - len(deleted); seen != want && kind == "plain" {
+		fail("range-misses-resident-keys", fmt.Sprintf("Range visited %d keys, %d are stored and not deleted", seen, want))
+		return
+	}
+	for k := range deleted {
+		delete(stored, k)
+	}
+	if !readBack("after-deleting-other-keys") {
+		return
+	}
+	r.Eval(1)
+	r.Count("many_keys_rounds", 1)
+	r.Count("many_keys_keys", int64(n))
+	r.Distinct(fmt.Sprintf("many-keys/%s/door=%v/pool=%v", kind, door, pool))
+}
+
+// c01WideValues: "exactly the value of the most recent Set" for values wider than a machine word. Every value is
+// four copies of one unique id; writers overwrite a handful of resident keys while readers Get and Range them. A
+// value whose four words differ was never written by anybody - whatever order the operations took effect in.
+// (Entry pool off; plain and loading caches, with and without doorkeeper.)
+func c01WideValues(r *Run, idx int) {
+	type wide [4]int64
+	rng := r.Rng(int64(1900 + idx))
+	loadingKind := idx%2 == 1
+	b := theine.NewBuilder[int, wide](int64([]int{4, 64, 1000}[idx/2%3]))
+	if idx/6%2 == 1 {
+		b = b.Doorkeeper(true)
+	}
+	var get func(k int) (wide, bool)
+	var set func(k int, v wide)
+	var rangef func(f func(k int, v wide) bool)
+	var closef func()
+	var seq atomic.Int64
+	if loadingKind {
+		c, err := b.Loading(func(ctx context.Context, k int) (theine.Loaded[wide], error) {
+			x := seq.Add(1)<<8 | 0xEE
+			return theine.Loaded[wide]{Value: wide{x, x, x, x}, Cost: 1}, nil
+		}).Build()
+		if err != nil {
+			r.Broken("build: %v", err)
+			return
+		}
+		get = func(k int) (wide, bool) { v, err := c.Get(context.Background(), k); return v, err == nil }
+		set = func(k int, v wide) { c.Set(k, v, 1) }
+		rangef, closef = c.Range, c.Close
+	} else {
+		c, err := b.Build()
+		if err != nil {
+			r.Broken("build: %v", err)
+			return
+		}
+		get, set, rangef, closef = c.Get, func(k int, v wide) { c.Set(k, v, 1) }, c.Range, c.Close
+	}
+	defer closef()
+	keys := 2 + rng.Intn(6)
+	for k := 0; k < keys; k++ {
+		x := seq.Add(1) << 8
+		set(k, wide{x, x, x, x})
+		set(k, wide{x, x, x, x})
+	}
+	var torn atomic.Int64
+	var first atomic.Value
+	check := func(how string, k int, v wide) {
+		if v[0] != v[1] || v[1] != v[2] || v[2] != v[3] {
+			if torn.Add(1) == 1 {
+				first.Store(fmt.Sprintf("%s of key %d returned %v", how, k, v))
+			}
+		}
+	}
+	var wg sync.WaitGroup
+	var reads atomic.Int64
+	stop := make(chan struct{})
+	W, R := 2+rng.Intn(3), 2+rng.Intn(4)
+	for w := 0; w < W; w++ {
+		wg.Add(1)
+		go func(w int) {
+			defer wg.Done()
+			rg := rand.New(rand.NewSource(int64(idx*100 + w)))
+			for {
+				select {
+				case <-stop:
+					return
+				default:
+				}
+				x := seq.Add(1) << 8
+				set(rg.Intn(keys), wide{x, x, x, x})
+			}
+		}(w)
+	}
+	for q := 0; q < R; q++ {
+		wg.Add(1)
+		go func(q int) {
+			defer wg.Done()
+			rg := rand.New(rand.NewSource(int64(idx*100 + 50 + q)))
+			for i := 0; ; i++ {
+				select {
+				case <-stop:
+					return
+				default:
+				}
+				if q == 0 && i%64 == 0 {
+					rangef(func(k int, v wide) bool { check("a Range visit", k, v); reads.Add(1); return true })
+					continue
+				}
+				k := rg.Intn(keys)
+				if v, ok := get(k); ok {
+					check("Get", k, v)
+					reads.Add(1)
+				}
+			}
+		}(q)
+	}
+	for i := 0; i < 150 && torn.Load() == 0; i++ {
+		time.Sleep(time.Millisecond)
+	}
+	close(stop)
+	wg.Wait()
+	r.Eval(1)
+	r.Count("wide_value_rounds", 1)
+	r.Count("wide_value_reads", reads.Load())
+	r.Distinct(fmt.Sprintf("wide-values/loading=%v/%d", loadingKind, idx/2%6))
+	if n := torn.Load(); n > 0 {
+		r.Violate("value-nobody-wrote/torn-multi-word-value", fmt.Sprintf("wide-values round %d (loading %v, %d keys, %d writers, %d readers): %d reads returned a value whose four words differ, although every value written is four copies of one number; first: %s", idx, loadingKind, keys, W, R, n, first.Load()),
+			map[string]any{"round": idx, "loading": loadingKind, "keys": keys, "writers": W, "readers": R})
+	}
+}
+
 func runC01(r *Run) {
 	if r.Replay != "" {
 		c01Replay(r)
@@ -506,6 +732,14 @@ func runC01(r *Run) {
 		}
 	})
 	c01Storm(r, r.Shard)
+	if r.Args["racepass"] == "" {
+		for i := 0; i < r.Pick(2, 8); i++ {
+			c01ManyKeys(r, r.Shard*8+i)
+		}
+		for i := 0; i < r.Pick(6, 48); i++ {
+			c01WideValues(r, r.Shard*48+i)
+		}
+	}
 	for n := 0; n < total; n++ {
 		if n%r.NShards != r.Shard {
 			continue
